@@ -53,7 +53,7 @@ def case3d_st(draw):
         t = {}
         if xforms.can_insert(var, part) and draw(st.booleans()):
             v, m = xforms.dim_ids(var, part)
-            t["insertions"] = draw(xforms.insertions_st(v, m, max_ins=2, allow_malformed=False,
+            t["insertions"] = draw(xforms.insertions_st(v, m, max_ins=3, allow_malformed=False,
                                                         with_id=True))
         refs = xforms.element_refs(var, part)
         if draw(st.integers(0, 3)) == 0:
